@@ -749,14 +749,15 @@ func arithLayers(j judge, tier string) []Layer {
 		layers = append(layers, Layer{
 			Name:   "L6-zero-operand",
 			Units:  len(strs),
-			Bounds: "Add/Sub(±0, y), Add/Sub(x, ±0), Mul/Quo with a zero, y from R(6)×±, prec 1..len, 6 modes",
+			Bounds: "Add/Sub(±0, y), Add/Sub(x, ±0), Mul/Quo with a zero (fresh, or in a variable that held a 3-word value before), y from R(6)×±, prec 1..len, 6 modes",
 			Run: func(c *Ctx, u int) {
 				s := strs[u]
 				for _, neg := range []bool{false, true} {
 					yo := mkCoef(neg, mustInt(s), -3, uint32(len(s))+3, 0)
 					y := yo.Build()
-					for _, zn := range []bool{false, true} {
-						zo := mkSpecial(fZero, zn, 34, 0)
+					for zi := 0; zi < 4; zi++ {
+						// the zero operand is fresh, or lives in a variable that held a 3-word value before
+						zo := mkSpecial(fZero, zi%2 == 1, 34, 0).withStale(int8(3 * (zi / 2)))
 						z := zo.Build()
 						var precs []uint32
 						for p := uint32(1); p <= uint32(len(s)); p++ {
